@@ -8,6 +8,26 @@ LONG_STR_NOSPACE = "'" + 'abcdefghij' * 9 + "'"
 LONG_STR_PUNCT = "'alpha/beta/gamma/delta/epsilon/zeta/eta/theta/iota/kappa/lambda/mu/nu/xi/omicron/pi/rho'"
 LONG_BYTES = "b'The quick brown fox jumps over the lazy dog and keeps running until the line is far too long'"
 LONG_BYTES_BIN = "bytes(range(40))"
+LONG_STR_QUOTES = repr('she said "yes" and "no" and "maybe" but it\'s all the same to them in the end, isn\'t it')
+LONG_STR_QUOTES2 = repr("it's 'single' heavy and isn't \"double\" heavy at all, that's how it's meant to be, y'all")
+LONG_BYTES_QUOTES = repr(b'she said "yes" and "no" and "maybe" but it\'s all the same to them in the end, isn\'t it')
+
+# dicts whose keys are mutually comparable but of mixed type / out of order
+SORTED_DICTS = [
+    "{2: 'a', 1.5: 'b', -1: 'c', 0.5: 'd'}",
+    "{True: 1, 0.5: 2}",
+    "{3: 0, 2.0: 0, True: 0, -0.5: 0}",
+    "{'b': 1, 'a': 2, 'C': 3, '': 4}",
+    "{b'b': 1, b'a': 2}",
+    "{(2, 'x'): 1, (1, 'y'): 2, (1, 'a'): 3}",
+    "{2: {20: 1, 10.5: 2}, 1: {'z': 1, 'y': 2}}",
+    "{10**20: 1, -10**20: 2, 0: 3}",
+    "{1: 'sorted', 2: 'already', 3: 'x'}",
+    "{3: 'reverse', 2: 'order', 1: 'x'}",
+    "[{2.5: 1, 2: 2}, ({'k': {1: 1, 0.5: 2}},)]",
+    "{float('inf'): 1, 0: 2, float('-inf'): 3}",
+    "{frozenset({1}): 1, frozenset(): 2}",
+]
 
 LEAVES = [
     '0', '-1', '10**20', 'True', 'False', 'None', '...',
@@ -102,11 +122,14 @@ def corpus(tier, seed):
         for src in rotating_assignments(sk, SHORT_LEAVES, per, rnd):
             out.append(('sk:' + sk + ':' + src[:40], src))
     # long strings in every context
-    for lf in (LONG_STR, LONG_BYTES, LONG_STR_NOSPACE, LONG_STR_PUNCT, LONG_BYTES_BIN):
-        for sk in ('[_]', "[_, 'x']", "{_: 1}", "{'k': _}", "(_,)", "{'k': [_]}"):
-            if tier == 'quick' and lf not in (LONG_STR, LONG_BYTES) and sk != "[_, 'x']":
+    for lf in (LONG_STR, LONG_BYTES, LONG_STR_NOSPACE, LONG_STR_PUNCT, LONG_BYTES_BIN,
+               LONG_STR_QUOTES, LONG_STR_QUOTES2, LONG_BYTES_QUOTES):
+        for sk in ('_', '[_]', "[_, 'x']", "{_: 1}", "{'k': _}", "(_,)", "{'k': [_]}"):
+            if tier == 'quick' and lf not in (LONG_STR, LONG_BYTES, LONG_STR_QUOTES) and sk not in ("[_, 'x']", '_'):
                 continue
             out.append(('long:' + sk + ':' + lf[:12], fill_holes(sk, [lf])))
+    for src in SORTED_DICTS:
+        out.append(('sorted:' + src[:40], src))
     if tier == 'thorough':
         # larger random trees (may end INCOMPLETE)
         for k in range(40):
